@@ -40,9 +40,13 @@ theorem replace (s : Sep r f) {a b : Nat} (ha : a ∉ handles r) (hb : b ∉ han
         simp only at s2 ⊢
         cases res with
         | ok =>
-          have := s2.removeConsolidate (prev := some p) (next := f2.nextSibling p)
-            (fun _ h => by cases h; exact hp) (fun _ h => s2.nextSibling_disj hp h)
-          exact this
+          cases hns : f.nextSibling a with
+          | none => exact s2
+          | some n =>
+            have hn := s.nextSibling_disj ha hns
+            have := s2.removeConsolidate (prev := f2.prevSibling n) (next := some n)
+              (fun _ h => s2.prevSibling_disj hn h) (fun _ h => by cases h; exact hn)
+            exact this
         | err e => exact s2
         | panic => exact s2
 
